@@ -96,6 +96,14 @@ def tokNodes (pos : Nat) (pend : Bytes) : List Tok → List Node
     | some _ => .term (Utf8.encodeRune t.ch) (.rune t.ch) p (p + 1 + t.gap.length) :: tokNodes (p + 1 + t.gap.length) [] r
     | none => .term (Utf8.encodeRune t.ch) (.rune t.ch) p (p + 1) :: tokNodes (p + 1) t.gap r
 
+/-- where the parser stands after the tokens: the end of the last token, past its gap if it is right-trimmed -/
+def endPos (pos : Nat) (pend : Bytes) : List Tok → Nat
+  | [] => pos
+  | t :: r =>
+    match t.d.right with
+    | some _ => endPos (pos + pend.length + 1 + t.gap.length) [] r
+    | none => endPos (pos + pend.length + 1) t.gap r
+
 /-- position-free view of a node: token and value -/
 def Node.tv : Node → Bytes × Option Val
   | .term t v _ _ => (t, some v)
